@@ -38,6 +38,12 @@ package rotation
 //@   ensures[C08,C09,* promote] in != nil && in.Current != nil && in.Next != nil && tsTime(in.Current.NotBefore) <= t && t <= tsTime(in.Current.NotAfter)
 //@   |   && tsTime(in.Next.NotBefore) < t && t < tsTime(in.Next.NotAfter) ==> onlyNext(ret) && ret1 == in.Next
 
+// closed-boundary versions used by the C09 induction (the code treats an instant equal to a bound as inside the window)
+//@   ensures[C09,* keepB] in != nil && in.Current != nil && in.Next != nil && tsTime(in.Current.NotBefore) <= t && t <= tsTime(in.Current.NotAfter)
+//@   |   && tsTime(in.Next.NotAfter) >= t && tsTime(in.Next.NotBefore) > t ==> len(ret) == 0
+//@   ensures[C09,* promoteB] in != nil && in.Current != nil && in.Next != nil && tsTime(in.Current.NotBefore) <= t && t <= tsTime(in.Current.NotAfter)
+//@   |   && tsTime(in.Next.NotBefore) <= t && t <= tsTime(in.Next.NotAfter) ==> onlyNext(ret) && ret1 == in.Next
+
 // sameRoot(a, b): the two root records are the same root (key and certificate, validity window)
 //@ pred sameRoot(a, b) := bytes(a.PublicKeyPkix) == bytes(b.PublicKeyPkix) && bytes(a.CertificateDer) == bytes(b.CertificateDer)
 //@   | && tsTime(a.NotBefore) == tsTime(b.NotBefore) && tsTime(a.NotAfter) == tsTime(b.NotAfter) && a.PrivateKeyType == b.PrivateKeyType
@@ -95,6 +101,16 @@ package rotation
 //@   |   tsTime(ret.Current.NotBefore) == t + nb && tsTime(ret.Current.NotAfter) == t + life
 //@   |   && tsTime(ret.Next.NotBefore) == t + nb + life / 2 && tsTime(ret.Next.NotAfter) == t + life + life / 2
 //@   ensures[C08 ca] err == nil ==> true
+// C09: the same regions with closed boundaries, and the exact windows of a bootstrap
+//@   ensures[C09 keepB] err == nil && reliable() && hadRoots() && ocNB <= t && t <= ocNA && onNB > t && onNA >= t ==>
+//@   |   sameRoot(ret.Current, old(StGet("roots", "roots").Current)) && sameRoot(ret.Next, old(StGet("roots", "roots").Next))
+//@   |   && StGet("roots", "roots") == old(StGet("roots", "roots")) && StHas("roots", "roots")
+//@   ensures[C09 promoteB] err == nil && reliable() && hadRoots() && ocNB <= t && ((t <= ocNA && onNB <= t && t <= onNA) || (ocNA < t && onNB < t && t < onNA)) ==>
+//@   |   sameRoot(ret.Current, old(StGet("roots", "roots").Next))
+//@   |   && tsTime(ret.Next.NotBefore) == t + nb + (onNA - t) / 2 && tsTime(ret.Next.NotAfter) == t + life + (onNA - t) / 2
+//@   ensures[C09 bootstrap] err == nil && reliable() && (!old(StHas("roots", "roots")) || opts(opt).WithReinitializeRoots) ==>
+//@   |   tsTime(ret.Current.NotBefore) == t + nb && tsTime(ret.Current.NotAfter) == t + life
+//@   |   && tsTime(ret.Next.NotBefore) == t + nb + life / 2 && tsTime(ret.Next.NotAfter) == t + life + life / 2
 
 // ---------------------------------------------------------------- node.go (C10, C13)
 
@@ -113,3 +129,53 @@ package rotation
 //@   call nodeenrollment.EncryptMessage assert[C10 replykey] payload(arg2) == currentNodeInfo && currentNodeInfo != nil
 //@   loop 0 invariant[search] currentNodeInfo == nil && rangeindex + 1 >= 0 && (fetchErrors == nil || fresh(fetchErrors))
 //@   modifies StNodeInfo
+
+// ---------------------------------------------------------------- C09: trust is never reset (induction over rotation calls)
+//
+// J(cNB, cNA, nNB, nNA, t, L): the inductive invariant of the stored root pair
+// at the instant t of a successful rotation call, for certificate lifetime L:
+// current is valid at t, next begins before current ends, next lasts at least
+// one more lifetime, and next's window is at least one lifetime wide.
+//@ pred J(cNB, cNA, nNB, nNA, t, L) := cNB <= t && t <= cNA && nNB <= cNA && nNA >= t + L && nNA - nNB >= L
+//
+// lemmaTrustContinuity(t0, s, delta): one rotation call at instant t. [base] a
+// bootstrap (or reinitialisation) establishes J(t). [step] if J(t0) held for the
+// stored pair and the call comes less than one lifetime after t0 (rotation
+// interval shorter than the validity span), then J(t) holds for the new pair and
+// the new pair is either the old pair or the promotion of the old next - the
+// start-over and re-mint regions are unreachable, so trust is never reset.
+// [successorvalid] current is replaced only when its successor is valid at t.
+// [covered] at every instant between t0 and t one of the two stored roots -
+// both trusted during that time - is valid, so a holder of chains from both has
+// a valid trusted chain. [nodewindow] a node that enrolled at s <= t while the
+// old next was still next, with the server promoting at most delta after that
+// root became valid, is covered by that root until the new next begins, which
+// is at least half of (validity span - delta) plus the (negative) not-before
+// skew after s. History-level statement: induction over the calls of a history
+// with base and step (the standard induction rule; not itself machine-checked).
+//@ pred JR(r, t, L) := J(tsTime(r.Current.NotBefore), tsTime(r.Current.NotAfter), tsTime(r.Next.NotBefore), tsTime(r.Next.NotAfter), t, L)
+//@ pred keptR(r, oc, on) := sameRoot(r.Current, oc) && sameRoot(r.Next, on)
+//@ pred promotedR(r, on, t, nb) := sameRoot(r.Current, on) && tsTime(r.Next.NotBefore) == t + nb + (tsTime(on.NotAfter) - t) / 2
+//@ func rotation.lemmaTrustContinuity
+//@   requires[wfroots] wfStoredRoots()
+//@   clock instantaneous
+//@   let t = now(0)
+//@   let o = opts(opt)
+//@   let L = o.WithCertificateLifetime
+//@   let nb = o.WithNotBeforeClockSkew
+//@   let oc = old(StGet("roots", "roots").Current)
+//@   let on = old(StGet("roots", "roots").Next)
+//@   let ocNB = old(tsTime(StGet("roots", "roots").Current.NotBefore))
+//@   let ocNA = old(tsTime(StGet("roots", "roots").Current.NotAfter))
+//@   let onNB = old(tsTime(StGet("roots", "roots").Next.NotBefore))
+//@   let onNA = old(tsTime(StGet("roots", "roots").Next.NotAfter))
+//@   let hyp = okCfg(o) && reliable() && hadRoots() && J(ocNB, ocNA, onNB, onNA, t0, L) && t0 <= t && t < t0 + L
+//@   ensures[C09 base] err == nil && okCfg(o) && reliable() && (!old(StHas("roots", "roots")) || o.WithReinitializeRoots) ==> JR(ret, t, L)
+//@   ensures[C09 step] err == nil && hyp ==> JR(ret, t, L) && (keptR(ret, oc, on) || promotedR(ret, on, t, nb))
+//@   ensures[C09 successorvalid] err == nil && hyp && !keptR(ret, oc, on) ==> promotedR(ret, on, t, nb) && onNB <= t && t <= onNA
+//@   ensures[C09 stored] err == nil && !o.WithSkipStorage ==> StHas("roots", "roots") && StGet("roots", "roots").Current != nil && StGet("roots", "roots").Next != nil
+//@   |   && sameRoot(StGet("roots", "roots").Current, ret.Current) && sameRoot(StGet("roots", "roots").Next, ret.Next)
+//@   ensures[C09 covered] hyp ==> forall u Int :: t0 <= u && u <= t ==> (ocNB <= u && u <= ocNA) || (onNB <= u && u <= onNA)
+//@   ensures[C09 nodewindow] err == nil && hyp && !keptR(ret, oc, on) && s <= t && delta >= 0 && t <= onNB + delta && delta <= onNA - onNB ==>
+//@   |   tsTime(ret.Next.NotBefore) >= s + nb + ((onNA - onNB) - delta) / 2 && tsTime(ret.Next.NotBefore) <= tsTime(ret.Current.NotAfter)
+//@   modifies StRoots
